@@ -17,7 +17,7 @@ EXPLANATION = (
     "parameters become the same obligation at every caller. Further: align/hang occur only in comment.rs and the source-indent nest in "
     "partial.rs (both exempt by the property); every value read from tab_spaces flows only into nest offsets (so structure cannot "
     "depend on the unit); nothing stores into PrettyPrinter::config after construction; the CLI maps --tab-width to tab_spaces (real "
-    "MIR of to_config). How the renderer turns nest offsets into blanks is trusted (pretty's documented semantics).")
+    "MIR of to_config). How the renderer turns nest offsets into blanks is trusted (pretty's documented semantics). Session 3: readers of tab_spaces in every function with a Config receiver (returned / stored units are violations); a text atom that spans lines lies inside a comment, string, raw text or protected node; native oracle at finite widths (the layout for unit 1 re-indented by t fits => unit t gives exactly that text).")
 
 EXEMPT_FILES = ('partial.rs',)          # nest(indent) copies the source's indentation (exempt by the property)
 COMMENT_FILE = 'comment.rs'
